@@ -49,7 +49,12 @@ ROUTES = ('ctor', 'set_rules', 'file', 'ctor+own', 'set_rules+own',
           'file+reg-default',
           # every rule is a registered default that is deprecated for
           # removal (still in force until it is removed); files define nothing
-          'reg-removal')
+          'reg-removal',
+          # every rule is a registered default that was RENAMED: it carries a
+          # deprecated rule under an old name nobody defines (its old check
+          # names a role nobody holds; old defaults are still honoured),
+          # so its own definition is still what the rule set says
+          'reg-renamed')
 
 
 def bound(tier):
@@ -137,6 +142,16 @@ def build(P, parse_rule, ruleset, cfg, route, w):
         enf.register_defaults([
             P.RuleDefault(n, b, deprecated_for_removal=True,
                           deprecated_reason='r', deprecated_since='s')
+            for n, b in ruleset.items()])
+        return enf
+    if route == 'reg-renamed':
+        w.write('policy.yaml', '{}')
+        conf = world.new_conf(w.root, enforce_new_defaults=False, **overrides)
+        enf = P.Enforcer(conf, **kw)
+        enf.register_defaults([
+            P.RuleDefault(n, b, deprecated_rule=P.DeprecatedRule(
+                'old-' + n, 'role:nobody-holds-this', deprecated_reason='r',
+                deprecated_since='s'))
             for n, b in ruleset.items()])
         return enf
     if route == 'file+late':
